@@ -10,6 +10,10 @@ class G:
     def __init__(self, rng, fns):
         self.rng = rng
         self.fns = fns          # list of (arity, recursive)
+        # class of finding K01d: a variable read inside a `let` body that sits inside the right-hand
+        # side of an assignment to that same variable
+        self.assign_stack = []  # [slot, entered_let]
+        self.k01d = False
 
     def int_(self, h, vs, d):
         """h: current frame height; vs: dict slot -> 'int'|'bool' of named slots."""
@@ -30,6 +34,8 @@ class G:
             return "(c %d)" % n, str(n)
         if k == "var":
             i = r.choice(ints)
+            if any(a[0] == i and a[1] for a in self.assign_stack):
+                self.k01d = True
             return "(l %d)" % i, "x%d" % i
         if k == "prim":
             op, sop = r.choice([("add", "+"), ("sub", "-"), ("mul", "*")])
@@ -44,7 +50,12 @@ class G:
         if k == "let":
             e = self.int_(h, vs, d - 1)
             vs2 = dict(vs); vs2[h] = "int"
+            saved = [a[1] for a in self.assign_stack]
+            for a in self.assign_stack:
+                a[1] = True
             b = self.int_(h + 1, vs2, d - 1)
+            for a, sv in zip(self.assign_stack, saved):
+                a[1] = sv
             return "(let %s %s)" % (e[0], b[0]), "(let ((x%d %s)) %s)" % (h, e[1], b[1])
         if k == "seq":
             a = self.int_(h, vs, d - 1)
@@ -52,11 +63,15 @@ class G:
             return "(seq %s %s)" % (a[0], b[0]), "(begin %s %s)" % (a[1], b[1])
         if k == "set":
             i = r.choice(ints)
+            self.assign_stack.append([i, False])
             e = self.int_(h, vs, d - 1)
+            self.assign_stack.pop()
             return "(set %d %s)" % (i, e[0]), "(set! x%d %s)" % (i, e[1])
         if k == "setseq":
             i = r.choice(ints)
+            self.assign_stack.append([i, False])
             e = self.int_(h, vs, d - 1)
+            self.assign_stack.pop()
             return "(seq (set %d %s) (l %d))" % (i, e[0], i), "(begin (set! x%d %s) x%d)" % (i, e[1], i)
         if k == "call":
             f = r.randrange(len(self.fns))
@@ -84,9 +99,10 @@ class G:
 
 
 def gen_frag_program(rng, depth=3):
-    """Returns (driver_text, steel_source)."""
+    """Returns (driver_text, steel_source, in_class_K01d)."""
     fns = []
     lines, src = [], []
+    k01d = False
     for k in range(rng.randint(0, 3)):
         ar = rng.randint(1, 3)
         rec = rng.random() < 0.4
@@ -107,6 +123,7 @@ def gen_frag_program(rng, depth=3):
         else:
             b = g.int_(ar, vs, depth)
             ir, st = b
+        k01d = k01d or g.k01d
         lines.append("fn %d %s" % (ar, ir))
         src.append("(define (f%d %s) %s)" % (k, " ".join("x%d" % i for i in range(ar)), st))
         fns.append((ar, rec))
@@ -114,4 +131,4 @@ def gen_frag_program(rng, depth=3):
     m = g.int_(0, {}, depth + 1) if rng.random() < 0.8 else g.bool_(0, {}, depth)
     lines.append("main %s" % m[0])
     src.append(m[1])
-    return "\n".join(lines), "\n".join(src)
+    return "\n".join(lines), "\n".join(src), (k01d or g.k01d)
